@@ -241,6 +241,8 @@ impl<'de, R: Reader<'de>> Parser<R> {
             res.is_ok(),
             final(self).read.idx() == str_end(old(self).read.data(), old(self).read.idx() as int).unwrap(),
             is_esc_status(res.unwrap()) <==> has_bs(old(self).read.data(), old(self).read.idx() as int, final(self).read.idx() as int),
+            // every error is made by Parser::error: positioned inside the input (C20)
+            res.is_err() ==> err_ok(res->Err_0, old(self).read.data()),
 //@after /let mut status = ParseStatus::None;/
         let ghost s = self.read.data();
         let ghost i0 = self.read.idx() as int;
@@ -428,6 +430,8 @@ impl<'de, R: Reader<'de>> Parser<R> {
             }),
         ensures final(self).pinv(), final(self).same_doc(old(self)), res.is_ok(),
             final(self).read.idx() == number_end(old(self).read.data(), old(self).read.idx() - 1).unwrap(),
+            // every error is made by Parser::error: positioned inside the input (C20)
+            res.is_err() ==> err_ok(res->Err_0, old(self).read.data()),
 //@before /let _ = self\.get_next_token/
         let ghost s = self.read.data();
         let ghost p = self.read.idx() as int - 1;
